@@ -156,6 +156,19 @@ impl MemTable {
 	/// * `batch` - The batch of operations to apply
 	/// * `starting_seq_num` - The starting sequence number for this batch (records get consecutive
 	///   numbers)
+	/// Upper bound of the arena space `batch` needs in an EMPTY memtable,
+	/// whatever tower heights the skiplist draws (head and tail sentinels
+	/// included). A batch above the arena capacity can never be applied.
+	pub(crate) fn arena_upper_bound(batch: &Batch) -> usize {
+		let mut need = 3 * skiplist::MAX_ENTRY_OVERHEAD;
+		for entry in &batch.entries {
+			need += skiplist::MAX_ENTRY_OVERHEAD
+				+ entry.key.len()
+				+ entry.value.as_ref().map_or(0, |v| v.len());
+		}
+		need
+	}
+
 	pub(crate) fn add(&self, batch: &Batch) -> Result<()> {
 		let highest_seq_num = self.apply_batch_to_memtable(batch)?;
 		self.update_latest_sequence_number(highest_seq_num);
